@@ -201,14 +201,42 @@ fn apply(r: &RefOnt, e: &Edit) -> RefOnt {
 }
 
 /// the same ontology through the Builder (no flags expressible there), annotation facts descendant-first
-fn build_via_builder(r: &RefOnt) -> Option<Ontology> {
+/// (None without a word for facts with flags; a Builder that fails on flag-free facts is reported - or counted, when
+/// two records of a kind share a name: unique names are a policy a Builder may have)
+fn build_via_builder(ctx: &mut Ctx, r: &RefOnt) -> Option<Ontology> {
     if r.terms.values().any(|t| t.obsolete || t.replacement.is_some()) {
         return None;
     }
     let mut f = r.to_facts();
     // supply deeper terms' annotations first (number of ancestors descending), then by id
     f.anns.sort_by_key(|a| (std::cmp::Reverse(a.term.map(|t| r.terms[&t].ancestors.len()).unwrap_or(0)), a.kind, a.id));
-    drive::build(&f, crate::model::Mode::Defaults).ok()
+    match drive::build(&f, crate::model::Mode::Defaults) {
+        Ok(o) => Some(o),
+        Err(e) => {
+            let shared_name = r.recs.iter().any(|m| {
+                let mut names = BTreeSet::new();
+                m.values().any(|x| !names.insert(x.name.as_str()))
+            });
+            if shared_name && e.starts_with("annotate_") {
+                ctx.bump("refused: Builder-built twin of a pair with records sharing a name", 1);
+            } else {
+                ctx.violation("Builder", "[builder] construction fails on valid facts", json!({"facts": f.to_json(), "observed": e}));
+            }
+            None
+        }
+    }
+}
+
+/// the OLD side of a pair: a refusal of the valid file is reported (as compare_pair does for the new side) - it
+/// would otherwise leave every pair of that base without a comparison
+fn build_old(ctx: &mut Ctx, r: &RefOnt) -> Option<Ontology> {
+    match build(r) {
+        Ok(o) => Some(o),
+        Err(e) => {
+            ctx.violation("Ontology::from_bytes", "rejects a file laid out as documented", json!({"facts": r.to_facts().to_json(), "observed": e, "side": "old"}));
+            None
+        }
+    }
 }
 
 fn build(r: &RefOnt) -> Result<Ontology, String> {
@@ -499,7 +527,7 @@ fn compare_pair(ctx: &mut Ctx, a: &RefOnt, oa: &Ontology, b: &RefOnt, history: &
                     Err(p) => ctx.violation("Ontology::compare", "[new ontology decoded from descending lists] panics", json!({"case": case(), "observed": p})),
                 },
                 // whether a file with descending lists must be accepted is a question for the decoder properties, not for this one
-                Err(_) => {}
+                Err(_) => ctx.bump("refused: file with descending lists (new side), by from_bytes", 1),
             }
             // the new ontology against its own binary round trip (the library's writer and reader)
             ctx.exec();
@@ -513,7 +541,7 @@ fn compare_pair(ctx: &mut Ctx, a: &RefOnt, oa: &Ontology, b: &RefOnt, history: &
                 None => ctx.violation("Ontology::as_bytes -> from_bytes", "round trip fails", json!({"facts": b.to_facts().to_json()})),
             }
             // the same pair built through the Builder API
-            if let (Some(ba), Some(bb)) = (build_via_builder(a), build_via_builder(b)) {
+            if let (Some(ba), Some(bb)) = (build_via_builder(ctx, a), build_via_builder(ctx, b)) {
                 ctx.exec();
                 match guard(|| observe(&ba, &bb)) {
                     Ok(rep) => {
@@ -530,7 +558,11 @@ fn compare_pair(ctx: &mut Ctx, a: &RefOnt, oa: &Ontology, b: &RefOnt, history: &
                 let mut fb = b.to_facts();
                 fb.version = (2025, 12, 31);
                 ctx.exec();
-                if let Ok(Ok(ob2)) = drive::from_bytes(&encode::encode(&fb, &EncOpts::v(3))) {
+                let ob2 = drive::from_bytes(&encode::encode(&fb, &EncOpts::v(3)));
+                if !matches!(ob2, Ok(Ok(_))) {
+                    ctx.violation("Ontology::from_bytes", "rejects a file laid out as documented", json!({"facts": fb.to_json(), "observed": format!("{:?}", ob2.as_ref().map(|r| r.as_ref().map(|_| ()))), "side": "new, another release version"}));
+                }
+                if let Ok(Ok(ob2)) = ob2 {
                     match guard(|| observe(oa, &ob2)) {
                         Ok(rep) => {
                             if let Some((site, sig, det)) = first_difference(&rep, &expected(a, b)) {
@@ -539,7 +571,7 @@ fn compare_pair(ctx: &mut Ctx, a: &RefOnt, oa: &Ontology, b: &RefOnt, history: &
                         }
                         Err(p) => ctx.violation("Ontology::compare", "[new ontology carries another release version] panics", json!({"case": case(), "observed": p})),
                     }
-                    if let Some(ba) = build_via_builder(a) {
+                    if let Some(ba) = build_via_builder(ctx, a) {
                         ctx.exec();
                         match guard(|| observe(&ba, &ob2)) {
                             Ok(rep) => {
@@ -601,7 +633,7 @@ pub fn run(ctx: &mut Ctx) {
         // length 0: self and round trip
         if ctx.take() {
             ctx.state();
-            if let Ok(oa) = build(base) {
+            if let Some(oa) = build_old(ctx, base) {
                 compare_pair(ctx, base, &oa, base, &|| json!([]));
                 // binary round trip of the library's own writer
                 ctx.exec();
@@ -629,7 +661,7 @@ pub fn run(ctx: &mut Ctx) {
                 }
                 continue;
             }
-            let Ok(oa) = build(base) else { continue };
+            let Some(oa) = build_old(ctx, base) else { continue };
             let s1 = apply(base, e1);
             if seen.insert(key(&s1)) {
                 ctx.state();
@@ -643,7 +675,7 @@ pub fn run(ctx: &mut Ctx) {
                     ctx.nontrivial();
                     compare_pair(ctx, base, &oa, &s2, &|| json!([format!("{e1:?}"), format!("{e2:?}")]));
                     // also the second step alone: intermediate vs final
-                    if let Ok(o1) = build(&s1) {
+                    if let Some(o1) = build_old(ctx, &s1) {
                         compare_pair(ctx, &s1, &o1, &s2, &|| json!([format!("(from the state after {e1:?})"), format!("{e2:?}")]));
                     }
                     if thorough {
@@ -707,7 +739,7 @@ pub fn run(ctx: &mut Ctx) {
             for e in script {
                 cur = apply(&cur, e);
             }
-            if let Ok(oa) = build(&base) {
+            if let Some(oa) = build_old(ctx, &base) {
                 compare_pair(ctx, &base, &oa, &cur, &|| json!(script.iter().map(|e| format!("{e:?}")).collect::<Vec<_>>()));
             }
             ctx.sample(|| json!({"script": script.iter().map(|e| format!("{e:?}")).collect::<Vec<_>>()}));
@@ -747,10 +779,10 @@ pub fn run(ctx: &mut Ctx) {
             ctx.state();
             ctx.nontrivial();
             let mut others: Vec<(Ontology, &str)> = vec![];
-            if let Ok(o) = build(base) {
+            if let Some(o) = build_old(ctx, base) {
                 others.push((o, "decoded"));
             }
-            if let Some(o) = build_via_builder(base) {
+            if let Some(o) = build_via_builder(ctx, base) {
                 others.push((o, "Builder-built"));
             }
             if let (Ok(oe), Ok(os)) = (build_min(&empty), build_min(&small)) {
@@ -791,7 +823,24 @@ pub fn run(ctx: &mut Ctx) {
                 }
             };
             let mut n_text = 0;
-            if let Some(oa) = load(base, false) {
+            // (can the text formats carry the base at all? then both loaders must take the unedited files)
+            let text_ok = |r: &RefOnt| {
+                let f = r.to_facts();
+                !(f.terms.iter().any(|t| t.name.is_empty() || t.name.len() > 200) || f.anns.iter().any(|a| a.term.is_some() && (a.name.is_empty() || a.name.len() > 200)))
+            };
+            let loaded = load(base, false);
+            if text_ok(base) {
+                if loaded.is_none() {
+                    ctx.bump("skipped: base whose text files from_standard refused (no text-loaded pair of it is compared)", 1);
+                }
+                if load(base, true).is_none() {
+                    ctx.bump("skipped: base whose text files from_standard_transitive refused", 1);
+                }
+            }
+            if let Some(oa) = loaded {
+                if model_of(&oa).is_none() {
+                    ctx.bump("skipped: text-loaded base that cannot be walked", 1);
+                }
                 if let Some(ma) = model_of(&oa) {
                     for (i, e) in applicable_edits(base).iter().enumerate().filter(|(i, _)| i % 3 == 0) {
                         // (a name that ends in a blank is not something a text file carries)
@@ -799,8 +848,16 @@ pub fn run(ctx: &mut Ctx) {
                             continue;
                         }
                         let s1 = apply(base, e);
-                        let Some(ob) = load(&s1, i % 2 == 1) else { continue };
-                        let Some(mb) = model_of(&ob) else { continue };
+                        let Some(ob) = load(&s1, i % 2 == 1) else {
+                            if text_ok(&s1) {
+                                ctx.bump("skipped: edited text files that the loader refused", 1);
+                            }
+                            continue;
+                        };
+                        let Some(mb) = model_of(&ob) else {
+                            ctx.bump("skipped: text-loaded ontology that cannot be walked", 1);
+                            continue;
+                        };
                         if !replacements_resolve(&ma, &mb) {
                             continue;
                         }
@@ -811,7 +868,10 @@ pub fn run(ctx: &mut Ctx) {
             }
             crate::jax::cleanup();
             let mut n_sub = 0;
-            if let (Ok(oa), ids) = (build(base), base.terms.keys().copied().collect::<Vec<u32>>()) {
+            if let (Some(oa), ids) = (build_old(ctx, base), base.terms.keys().copied().collect::<Vec<u32>>()) {
+                if model_of(&oa).is_none() {
+                    ctx.bump("skipped: decoded base that cannot be walked (no sub-ontology pair of it is compared)", 1);
+                }
                 if let Some(ma) = model_of(&oa) {
                     let mut subs: Vec<(Ontology, RefOnt, String)> = vec![];
                     for root in [118u32, 1] {
@@ -824,7 +884,16 @@ pub fn run(ctx: &mut Ctx) {
                                 (Some(r), Some(ls)) => oa.sub_ontology(r, ls).ok(),
                                 _ => None,
                             });
+                            // (a valid call - leaf is root or below it - that fails or panics is C14's finding; here it is
+                            // a pair that is not compared)
+                            let valid = base.terms.contains_key(&root) && leaves.iter().all(|l| *l == root || base.terms[l].ancestors.contains(&root));
+                            if valid && !matches!(res, Ok(Some(_))) {
+                                ctx.bump("skipped: valid sub_ontology call that failed (pair not compared)", 1);
+                            }
                             if let Ok(Some(sub)) = res {
+                                if model_of(&sub).is_none() {
+                                    ctx.bump("skipped: sub-ontology that cannot be walked", 1);
+                                }
                                 if let Some(ms) = model_of(&sub) {
                                     if replacements_resolve(&ma, &ms) {
                                         n_sub += 1;
@@ -879,6 +948,19 @@ pub fn run(ctx: &mut Ctx) {
                         Ok((same, ren, add, rem)) => {
                             if same != Report::default() {
                                 ctx.violation("Ontology::compare", "[66 000 terms] comparing an ontology with itself reports differences", json!({"added": same.added_terms.len(), "removed": same.removed_terms.len()}));
+                            }
+                            // the three expected reports, complete (all twelve lists and the content of the one delta)
+                            let last = 1000 + 65_999u32;
+                            let mut want_ren = Report::default();
+                            want_ren.changed_terms.insert(last, (Some((format!("T{last}"), "renamed".to_string())), vec![], vec![], None, None));
+                            let mut want_add = Report::default();
+                            want_add.added_terms.insert(1000 + 66_000);
+                            let mut want_rem = Report::default();
+                            want_rem.removed_terms.insert(1000 + 66_000);
+                            for (got, want, edit) in [(&ren, &want_ren, "last term renamed"), (&add, &want_add, "one term more"), (&rem, &want_rem, "one term more, arguments swapped")] {
+                                if let Some((site, sig, det)) = first_difference(got, want) {
+                                    ctx.violation(&site, &format!("[66 000 terms] {sig}"), json!({"edit": edit, "difference": det.chars().take(600).collect::<String>()}));
+                                }
                             }
                             let ren_ok = ren.added_terms.is_empty() && ren.removed_terms.is_empty() && ren.added_recs.iter().all(|x| x.is_empty()) && ren.removed_recs.iter().all(|x| x.is_empty()) && ren.changed_terms.len() == 1 && ren.changed_terms.contains_key(&(1000 + 65_999));
                             if !ren_ok {
